@@ -16,18 +16,18 @@ func coin(s Src, num, den int) bool { return s.Intn(den) < num }
 
 type Inline interface{}
 
-type Text struct{ S string }              // safe literal text (words, single spaces, inert punctuation)
-type Esc struct{ C byte }                 // backslash-escaped ASCII punctuation
-type Ent struct{ Src, Exp string }        // entity reference and its expansion
-type Emph struct{ C []Inline }            // <em>
-type Strong struct{ C []Inline }          // <strong>
-type Code struct{ S string }              // code span content (raw)
-type Link struct {                        // <a>
-	C     []Inline
-	Dest  URL
-	Title *Title
-	Form  int // 0 inline, 1 full ref, 2 collapsed, 3 shortcut
-	Label string
+type Text struct{ S string }       // safe literal text (words, single spaces, inert punctuation)
+type Esc struct{ C byte }          // backslash-escaped ASCII punctuation
+type Ent struct{ Src, Exp string } // entity reference and its expansion
+type Emph struct{ C []Inline }     // <em>
+type Strong struct{ C []Inline }   // <strong>
+type Code struct{ S string }       // code span content (raw)
+type Link struct {                 // <a>
+	C       []Inline
+	Dest    URL
+	Title   *Title
+	Form    int // 0 inline, 1 full ref, 2 collapsed, 3 shortcut
+	Label   string
 	LabelNL bool // full reference: the label may be spelled with a line break
 }
 type Image struct {
